@@ -296,9 +296,21 @@ type pendingInit struct {
 }
 
 func (i *interpreter) runPendingInits() {
-	for i.phaseADepth == 0 && len(i.pendingInits) > 0 {
-		p := i.pendingInits[0]
-		i.pendingInits = i.pendingInits[1:]
+	for {
+		// an init function waits only while a variable initialiser of its own package is being
+		// evaluated (dependencies are fully initialised before a package's initialisers run)
+		idx := -1
+		for k, p := range i.pendingInits {
+			if i.phaseAPkgs[p.fn.Pkg] == 0 {
+				idx = k
+				break
+			}
+		}
+		if idx < 0 {
+			return
+		}
+		p := i.pendingInits[idx]
+		i.pendingInits = append(i.pendingInits[:idx:idx], i.pendingInits[idx+1:]...)
 		callee := p.call.Call.StaticCallee()
 		if i.initFnDone == nil {
 			i.initFnDone = map[*ssa.Function]bool{}
@@ -321,7 +333,11 @@ func (i *interpreter) initPhaseA(g *ssa.Global, s *initSlice) {
 	}
 	i.initDepth++
 	i.phaseADepth++
-	defer func() { i.initDepth--; i.phaseADepth-- }()
+	if i.phaseAPkgs == nil {
+		i.phaseAPkgs = map[*ssa.Package]int{}
+	}
+	i.phaseAPkgs[s.fn.Pkg]++
+	defer func() { i.initDepth--; i.phaseADepth--; i.phaseAPkgs[s.fn.Pkg]-- }()
 	fn := s.fn
 	fr := &frame{i: i, fn: fn}
 	fr.env = make(map[ssa.Value]value)
